@@ -180,8 +180,8 @@ theorem mem_fetch (i : Sv.Memory.In) (m : BitVec 19 → Word) :
 theorem mem_read (i : Sv.Memory.In) (m : BitVec 19 → Word) :
     (Sv.Memory.comb ⟨⟩ i ⟨m⟩).o_d_data = m i.i_d_addr := rfl
 
-/-- The memory's clocked arm: a point update when `valid ∧ we` (reset low), else unchanged. -/
 set_option linter.unusedVariables false in
+/-- The memory's clocked arm: a point update when `valid ∧ we` (reset low), else unchanged. -/
 theorem mem_write (i : Sv.Memory.In) (m : BitVec 19 → Word) (hr : i.i_rst = 0#1) :
     (Sv.Memory.ff ⟨⟩ i ⟨m⟩).memory_q =
       if i.i_d_valid &&& i.i_d_we = 1#1 then upd m i.i_d_addr i.i_d_data else m := by
